@@ -1,4 +1,5 @@
 // Native driver for dedupe.rs kernels (injected as a cfg(test) child module of dedupe.rs).
+//   TF <path hex>..                          -> per path: hex of FsCommand::temp_file(path)
 //   MT <target dir hex> <source path hex>..   -> per source: hex of the bytes of PartitionedFileGroup::move_target(dir, source)
 use super::*;
 use std::os::unix::ffi::{OsStrExt, OsStringExt};
@@ -32,6 +33,14 @@ fn verif_dedupe_driver() {
                     .collect::<Vec<_>>()
                     .join(" ")
             }
+            "TF" => f[1..]
+                .iter()
+                .map(|h| {
+                    let t = FsCommand::temp_file(&path_of(h));
+                    t.to_path_buf().as_os_str().as_bytes().iter().map(|b| format!("{:02x}", b)).collect::<String>()
+                })
+                .collect::<Vec<_>>()
+                .join(" "),
             _ => "?".to_string(),
         });
         out.push_str(&res.unwrap_or_else(|_| "PANIC".to_string()));
